@@ -204,9 +204,10 @@ def check_partition(prog: Program, res: Result) -> None:
             sts = [s for s in lp.body if isinstance(s, ast.Assign) and isinstance(s.targets[0], ast.Subscript) and norm(s.targets[0].value) == arr]
             ok = len(sts) == 1
             if ok:
+                keep = [pid, inst]
                 idx = sts[0].targets[0].slice
-                el = [norm(e) for e in idx.elts] if isinstance(idx, ast.Tuple) else [norm(idx)]
-                ok = el[:2] == [inst, f"{pid}.node_ind"] and norm(sts[0].value) == f"{src}[{pid}.node_ind][{pid}.peak_ind]"
+                el = [astq.norm(astq.expand_at(fi.node, e, sts[0], keep=keep)) for e in idx.elts] if isinstance(idx, ast.Tuple) else [astq.norm(astq.expand_at(fi.node, idx, sts[0], keep=keep))]
+                ok = el[:2] == [inst, f"{pid}.node_ind"] and astq.norm(astq.expand_at(fi.node, sts[0].value, sts[0], keep=keep)) == f"{src}[{pid}.node_ind][{pid}.peak_ind]"
             res.ob(R, ok, fi.qualname, f"{arr}[instance, node] = {src}[node][peak]",
                    f"{arr} is not filled as {arr}[{inst}, {pid}.node_ind] = {src}[{pid}.node_ind][{pid}.peak_ind]: a keypoint would not be "
                    "the detected peak of that node / instance", fi.where)
